@@ -42,6 +42,21 @@ P = {
   text="For every client state and every server message of ten option layouts (all header fields and option values symbolic): a lease is configured only from a DHCPACK with the socket's transaction id and hardware address, a server identifier, a contiguous mask and a unicast address, and only after a REQUEST was actually handed to the device; then now <= T1 <= T2 <= expiry <= now + min(lease, max_lease) for ALL u32 lease/T1/T2 values; at expiry dispatch() resets and poll() yields Deconfigured, poll_at never exceeds expiry, renew (unicast) precedes rebind (broadcast) precedes expiry, discovery/request retries have bounded intervals, emit failure changes nothing.",
   note="Messages follow fixed layouts (option order/presence per harness, values free); malformed option bytes are C07/C03's subject. Interface MTU 82..1514, request_retries <= 16 in the dispatch harness; the PRNG state is symbolic after construction.",
   ref="DESIGN.md 5/C18, 14"),
+ "C09": dict(
+  tech="model-based one-step checks of the udp/icmp/raw socket API against a ghost FIFO (states reached through symbolic public API scripts), interface-level delivery/egress harnesses with a frame-capturing device",
+  text="For UDP (1..3 metadata slots, payload ring 0..8, IPv4 and IPv6 endpoints), ICMP and raw sockets: an accepted send appends exactly (addressing, bytes), a refused one leaves the queue unchanged, dispatch with emit=Err re-offers the head unmodified and with emit=Ok pops exactly the head; process appends exactly one whole datagram with source/destination metadata or nothing; recv/peek hand out datagrams whole and in order, a short user buffer yields Truncated; at the interface a datagram for a bound socket is delivered exactly once with exact payload and metadata, socket_egress hands a queued datagram to the device exactly once and keeps it queued under device back-pressure.",
+  note="ICMP/raw use concrete rings (20/44 bytes) and 2-step scripts; ring wrap/padding is covered by the UDP and PacketBuffer harnesses. One known finding (ICMP errors quoting only 8 octets are not delivered to a UDP-bound ICMP socket).",
+  ref="DESIGN.md 5/C09, 14"),
+ "C10": dict(
+  tech="dispatch_ip / dispatch / socket_egress on symbolic packets with a frame-capturing TxToken; harness-side independent well-formedness checks and RFC 1071 reference checksums; reply-source checks in the ingress harnesses",
+  text="For UDP, TCP (SYN with MSS+WS+SACK-permitted(+TS), data with TS and a SACK block), ICMPv4 echo and ARP replies with all field values symbolic (Ethernet, MTU 1500, tx checksums on): the captured frame has the exact length, correct Ethernet addresses/ethertype, IPv4 ihl/total length/ttl/protocol/addresses, a header checksum and L4 checksums that verify under an independent reference, TCP data offset and an option list that is well-formed, terminated and zero-padded; every reply built on ingress (RST, ICMP errors, echo replies, NDISC/ARP) has a source that is one of the interface's own unicast addresses.",
+  note="Concrete MTU 1500 and concrete time (symbolic values exhaust 8 GB); payloads 2-4 bytes; IPv6/6LoWPAN frame layout is checked through C20/C06 templates; oversize (fragmented) frames are C12's grid.",
+  ref="DESIGN.md 5/C10, 13"),
+ "C11": dict(
+  tech="process_ip / process_ethernet on byte-template packets with fully symbolic IPv4 addresses (32 bits each) and IPv6 addresses (9/4 symbolic octets covering every class), ports, flags, against a harness-side address classification",
+  text="For every source/destination class (own unicast, foreign unicast, subnet and limited broadcast, joined/unjoined multicast, all-nodes, solicited-node, unspecified, loopback) and every port relation: packets not addressed to the interface are neither delivered nor answered; a socket only receives traffic matching its endpoint; no TCP reset or ICMP error is sent towards or because of a non-unicast address nor in answer to a reset or ICMP error; TCP to broadcast/multicast never changes a socket; frames for another station are ignored; packets with a wrong IP/L4 checksum have no effect at all.",
+  note="One socket per harness (three in the set exhaust the solver); raw-IP medium for the IP layer, Ethernet for the link filter; 802.15.4 PAN filtering is in C20/C03's harnesses. Two known findings (ICMPv6 Parameter Problem code 1 to multicast, enforced by /repo's own test; ::1 accepted without being configured).",
+  ref="DESIGN.md 5/C11, 14"),
  "C14": dict(
   tech="model-based one-step checks of every public RingBuffer / PacketBuffer operation from arbitrary (API-reachable) states against a ghost queue",
   text="For every capacity 0..=6, every read position/length and every argument: each of the 17 RingBuffer operations returns, keeps and stores exactly what a simple queue model says (incl. the unallocated window used by TCP reassembly), never exceeds capacity; PacketBuffer (<= 3 metadata slots, payload ring <= 8, state = empty buffer at any read pointers + 3 symbolic public steps) returns (header, payload) pairs whole, in order, once; a refused enqueue or declined dequeue leaves the queue unchanged; an empty buffer accepts any size <= capacity through either enqueue interface.",
